@@ -1,7 +1,12 @@
 package badger
 
 import (
+	"bytes"
+	"encoding/gob"
+	"time"
+
 	"github.com/dgraph-io/badger/v2"
+	"github.com/vipnode/vipnode/v2/pool/store"
 )
 
 const dbVersion = 2
@@ -15,7 +20,9 @@ var migrations = [dbVersion]MigrationStep{
 		return setVersion(txn, 1)
 	},
 
-	// Version 1 -> 2 (added TTL to nonces, so we just nuke the table)
+	// Version 1 -> 2 (added TTL to nonces). Nonces that are too old to be
+	// accepted again are dropped, the others get their TTL: a request that was
+	// honoured before the upgrade must not be honoured again after it.
 	func(txn *badger.Txn) error {
 		if err := checkVersion(txn, 1); err != nil {
 			return err
@@ -27,9 +34,23 @@ var migrations = [dbVersion]MigrationStep{
 		for it.Seek(prefix); it.ValidForPrefix(prefix); it.Next() {
 			// The transaction keeps the key until commit while the iterator
 			// reuses the item's buffer for a key further ahead (of the next
-			// tables, too): delete a copy.
+			// tables, too): work on a copy.
 			key := it.Item().KeyCopy(nil)
-			if err := txn.Delete(key); err != nil {
+			var nonce int64
+			if err := it.Item().Value(func(val []byte) error {
+				return gob.NewDecoder(bytes.NewReader(val)).Decode(&nonce)
+			}); err != nil {
+				return err
+			}
+			ttl := time.Until(time.Unix(0, nonce).Add(store.ExpireNonce))
+			if ttl <= 0 {
+				if err := txn.Delete(key); err != nil {
+					return err
+				}
+				continue
+			}
+			// Rounded up, badger expires entries at whole seconds.
+			if err := setExpiringItem(txn, key, &nonce, ttl+time.Second); err != nil {
 				return err
 			}
 		}
